@@ -130,40 +130,43 @@ def renderMeta (t : Target) : String :=
 
 def enc : String → String := encStr
 
-def step (st : St) (args : List String) : St × String × String :=
-  let s := st.s
-  let dup (x : St × String) : St × String × String := (x.1, x.2, x.2)
+/-- one cache operation: new state, raw feed events (callback order), observation -/
+def exec (s : State) (args : List String) : State × List Event × String :=
   match args with
   | ["new", thr, ed, excl] =>
-      dup ({ s := { cfg := { futureThr := parseInt thr, eventDriven := ed == "1",
-                             excluded := if excl == "-" then [] else (excl.splitOn ",").map decStr } } }, "ok")
-  | ["add", t] => dup ({ s := s.add (decStr t) }, "ok")
+      ({ cfg := { futureThr := parseInt thr, eventDriven := ed == "1",
+                  excluded := if excl == "-" then [] else (excl.splitOn ",").map decStr } }, [], "ok")
+  | ["add", t] => (s.add (decStr t), [], "ok")
   | ["remove", t, now] =>
-      let r := s.remove (decStr t) (parseInt now); dup ({ s := r.1 }, renderEventsSeq r.2)
+      let r := s.remove (decStr t) (parseInt now); (r.1, r.2, renderEventsSeq r.2)
   | ["reset", t, now] =>
-      let r := s.reset enc (decStr t) (parseInt now); dup ({ s := r.1 }, renderEventsSorted r.2)
+      let r := s.reset enc (decStr t) (parseInt now); (r.1, r.2, renderEventsSorted r.2)
   | ["sync", t, now] =>
-      let r := s.sync enc (decStr t) (parseInt now); dup ({ s := r.1 }, renderEventsSeq r.2)
+      let r := s.sync enc (decStr t) (parseInt now); (r.1, r.2, renderEventsSeq r.2)
   | ["connect", t, now] =>
-      let r := s.connect enc (decStr t) (parseInt now); dup ({ s := r.1 }, renderEventsSeq r.2)
+      let r := s.connect enc (decStr t) (parseInt now); (r.1, r.2, renderEventsSeq r.2)
   | ["connerr", t, msg, now] =>
-      let r := s.connectError enc (decStr t) (decStr msg) (parseInt now); dup ({ s := r.1 }, renderEventsSeq r.2)
+      let r := s.connectError enc (decStr t) (decStr msg) (parseInt now); (r.1, r.2, renderEventsSeq r.2)
   | ["upd", now, noti] =>
       let pn := parseNoti noti
       let r := s.gnmiUpdate (parseInt now) pn.1 pn.2
-      if r.1 = .panic then dup ({ s := r.2.1 }, "panic")
-      else dup ({ s := r.2.1 }, renderRes r.1 ++ " " ++ renderGroups r.2.2)
+      if r.1 = .panic then (r.2.1, [], "panic")
+      else (r.2.1, r.2.2.flatten, renderRes r.1 ++ " " ++ renderGroups r.2.2)
   | ["updmeta", now] =>
-      let r := s.updateMetadata enc (parseInt now); dup ({ s := r.1 }, renderEventsSorted r.2)
+      let r := s.updateMetadata enc (parseInt now); (r.1, r.2, renderEventsSorted r.2)
   | ["query", t, q] =>
       match s.query (decStr t) (decPath q) with
-      | none => dup (st, "err")
-      | some l => dup (st, bracket (sortStrs (l.map (fun e => encStr e.1 ++ encPath e.2.1 ++ renderStored e.2.2))))
-  | ["has", t] => dup (st, toString (s.hasTarget (decStr t)))
+      | none => (s, [], "err")
+      | some l => (s, [], bracket (sortStrs (l.map (fun e => encStr e.1 ++ encPath e.2.1 ++ renderStored e.2.2))))
+  | ["has", t] => (s, [], toString (s.hasTarget (decStr t)))
   | ["meta", t] =>
       match s.get (decStr t) with
-      | none => dup (st, "none")
-      | some tg => dup (st, renderMeta tg)
-  | _ => dup (st, "bad-op")
+      | none => (s, [], "none")
+      | some tg => (s, [], renderMeta tg)
+  | _ => (s, [], "bad-op")
+
+def step (st : St) (args : List String) : St × String × String :=
+  let r := exec st.s args
+  ({ s := r.1 }, r.2.2, r.2.2)
 
 end Driver.CA
